@@ -1064,7 +1064,10 @@ def c13_scenario(case):
 # ---------------------------------------------------------------------------
 # C14: object life-cycles
 
-C14_PLSS_TEXT = ("T154-R97W Sec 15 NE, Lots 1, 1, N/2, Sec 14 Lots 5 - 3, NE, Sec 20 - 21 Lots 2, 2, NE, "
+# (an exception clause under each of two Twp/Rges: the description-level warning 'less_except' is raised twice and
+#  handed to every tract twice)
+C14_PLSS_TEXT = ("T154-R97W Sec 15 NE, Lots 1, 1, N/2, less and except the road, Sec 14 Lots 5 - 3, NE, "
+                 "T155N-R97W Sec 20 - 21 Lots 2, 2, NE, less and except the river, "
                  "Township lS5 North, Range 98 West Sec 1 NE")      # (the last Twp/Rge: only the OCR pattern reads it)
 # (which duplicate flags there are depends on clean_qq and on the depth, so stale flags are visible)
 C14_TRACT_TEXT = "Lots 1, 1, 5 - 3, NE, NE/4, N/2NE/4, SW"
@@ -1200,7 +1203,8 @@ def c14(case):
 
 C15_KEYS = {"k1": "154n97w14", "k2": "155n98w01", "kerr": "XXXzXXXzXX"}
 C15_OTHER = {"o1": "T154N-R97W Sec 14: NE/4, T155N-R98W Sec 1: Lots 1 - 3", "o2": "T155N-R98W Sec 1: W/2, Sec 0: that part",
-             "o3": "TIS4N-R97W Sec 14: NE/4, T155N-R98W Sec 1: Lots 1 - 3", "o4": "T155N-R98W Sec 1: NE NW, SW, Sec 0: SE"}
+             "o3": "TIS4N-R97W Sec 14: NE/4, T155N-R98W Sec 1: Lots 1 - 3", "o4": "T155N-R98W Sec 1: NE NW, SW, Sec 0: SE",
+             "o5": "T155N-R98W Sec 1: N/2NE/4NE/4, S/2N/2NW/4SW/4, N/2E/2N/2E/2"}
 
 
 _C15_HELD = [None]
@@ -1259,6 +1263,10 @@ def c15_probe(p):
         d = pytrs.PLSSDesc("T154-R97 Sec 14 NE, Lots 1 - 3", config=_C15_CFG[0], parse_qq=True)
         t = pytrs.Tract.from_twprgesec("N/2", 154, 97, 14, config=_C15_CFG[0])
         return (snap_plss(d), snap_tract(t), str(_C15_CFG[0]))
+    if p == "tract_deep":
+        t = pytrs.Tract("N/2NE/4NE/4, S/2N/2NW/4SW/4, N/2E/2N/2E/2", "154n97w14", parse_qq=True, config="qq_depth_max.3")
+        u = pytrs.Tract("N/2NE/4NE/4, S/2N/2NW/4SW/4", "154n97w14", parse_qq=True, config="qq_depth_min.1,qq_depth_max.4,break_halves")
+        return (snap_tract(t), snap_tract(u))
     if p == "held_tract":
         if _C15_HELD_T[0] is None:
             _C15_HELD_T[0] = pytrs.Tract(C14_TRACT_TEXT, "154n97w14")
@@ -1308,7 +1316,7 @@ def c15_do(op):
     elif name == "use_cache":
         pytrs.TRS._USE_CACHE = (a == "on")
     elif name == "parse_other":
-        cfg = {"o3": "ocr_scrub", "o4": "clean_qq"}.get(a)
+        cfg = {"o3": "ocr_scrub", "o4": "clean_qq", "o5": "qq_depth_max.3,break_halves"}.get(a)
         d = pytrs.PLSSDesc(C15_OTHER[a], parse_qq=True, config=cfg)
         d.tracts_to_dict("trs", "twp")
         if a == "o3":
